@@ -121,23 +121,37 @@ def worker_setup(ctx):
 
 
 def _check_flags(ctx, when, placement):
+    """At worker start the flags must be at their safe defaults; afterwards they
+    must not change (a flip made by the library is reported where it happened
+    and undone, an unsafe default is reported once and left in place so that
+    the workload shows its consequences)."""
     pjax = _W["pjax"]
     ctx.count("flag_checks")
-    e, w = pjax.enforce_lowering_exception, pjax.lowering_warning
-    if e is not True or w is not False:
+    cur = (pjax.enforce_lowering_exception, pjax.lowering_warning)
+    if when == "worker-start":
+        _W["flags"] = cur
+        if cur[0] is not True or cur[1] is not False:
+            ctx.violation(
+                "flags|unsafe-default",
+                {
+                    "when": when,
+                    "enforce_lowering_exception": repr(cur[0]),
+                    "lowering_warning": repr(cur[1]),
+                    "expected": "enforce_lowering_exception=True, lowering_warning=False",
+                },
+            )
+    elif cur[0] is not _W["flags"][0] or cur[1] is not _W["flags"][1]:
         ctx.violation(
-            "flags|changed-by-library" if when != "worker-start" else "flags|unsafe-default",
+            "flags|changed-by-library",
             {
                 "when": when,
                 "placement": placement,
-                "enforce_lowering_exception": repr(e),
-                "lowering_warning": repr(w),
-                "expected": "enforce_lowering_exception=True, lowering_warning=False",
+                "enforce_lowering_exception": repr(cur[0]),
+                "lowering_warning": repr(cur[1]),
+                "before": [repr(v) for v in _W["flags"]],
             },
         )
-        # restore so that one flip is reported once, where it happened
-        if when != "worker-start":
-            pjax.enforce_lowering_exception, pjax.lowering_warning = True, False
+        pjax.enforce_lowering_exception, pjax.lowering_warning = _W["flags"]
 
 
 def _guard(fn):
